@@ -126,14 +126,14 @@ theorem generic_never_panics (m : Mode) (f : Nat) (d : Bytes) (s : String) :
 
 /-- the same in every nested context (definite parent with any limit, indefinite parent) -/
 theorem nested_never_panics_definite (m : Mode) (f : Nat) (d : Bytes) (l : Nat) (s : String) :
-    runG0 (readAll f ⟨.definite, m⟩) (St d (some l)) ≠ .error (.panic s) := by
+    runG0 (readAll f ⟨.definite, m, 0⟩) (St d (some l)) ≠ .error (.panic s) := by
   have h := definite_parent m f d l
   intro hc
   rw [hc] at h
-  cases specD m f d l <;> simp [Rel0] at h
+  cases specD m 0 f d l <;> simp [Rel0] at h
 
 theorem nested_never_panics_indefinite (m : Mode) (f : Nat) (g : G0) (hf : g.frames = []) (s : String) :
-    runG0 (readAll f ⟨.indefinite, m⟩) g ≠ .error (.panic s) := by
+    runG0 (readAll f ⟨.indefinite, m, 0⟩) g ≠ .error (.panic s) := by
   have h := indefinite_parent m f g hf
   intro hc
   rw [hc] at h
@@ -188,12 +188,12 @@ theorem exhausted_no_fuel (c : Content) (g : G0) : runG0 c.exhausted g ≠ .erro
 
 
 /-- the value part can only run out of fuel inside the closure -/
-theorem bodyF_fuel (c : Cons) (op : Tag → Content → Prog (α × Content)) (g2 : G0) (id : Ident) (len? : Option Nat)
-    (h : bodyF c op g2 id len? = .error .fuel) :
+theorem bodyF_fuel (c : Cons) (op : Tag → Content → Prog (α × Content)) (hd : Nat) (g2 : G0) (id : Ident) (len? : Option Nat)
+    (h : bodyF c op hd g2 id len? = .error .fuel) :
     (∃ len, len? = some len ∧ (∀ l, g2.limit = some l → len ≤ l) ∧
       runG0 (op (C12.tagOf id.cls id.num)
-        (if id.constructed then .cons ⟨.definite, c.mode⟩ else .prim c.mode)) (St g2.data (some len)) = .error .fuel) ∨
-    (len? = none ∧ runG0 (op (C12.tagOf id.cls id.num) (.cons ⟨.indefinite, c.mode⟩)) g2 = .error .fuel) := by
+        (if id.constructed then .cons ⟨.definite, c.mode, 0⟩ else .prim c.mode)) (St g2.data (some len)) = .error .fuel) ∨
+    (len? = none ∧ runG0 (op (C12.tagOf id.cls id.num) (.cons ⟨.indefinite, c.mode, 0⟩)) g2 = .error .fuel) := by
   unfold bodyF at h
   by_cases he : isEocIdent id = true
   · simp only [he, if_true] at h
@@ -208,7 +208,7 @@ theorem bodyF_fuel (c : Cons) (op : Tag → Content → Prog (α × Content)) (g
           (if (id.constructed && c.mode == .cer) = true then (.error .content : Res ((Option α × Cons) × G0))
            else
             match runG0 (op (C12.tagOf id.cls id.num)
-                (if id.constructed = true then Content.cons ⟨.definite, c.mode⟩ else Content.prim c.mode))
+                (if id.constructed = true then Content.cons ⟨.definite, c.mode, 0⟩ else Content.prim c.mode))
                 (St g2.data (some len)) with
             | .error e => .error e
             | .ok ((res, content'), g3) =>
@@ -216,14 +216,14 @@ theorem bodyF_fuel (c : Cons) (op : Tag → Content → Prog (α × Content)) (g
               | .error e => .error e
               | .ok (_, g4) => .ok ((some res, c), { g4 with limit := g2.limit.map (· - len) })) = .error .fuel →
           runG0 (op (C12.tagOf id.cls id.num)
-            (if id.constructed = true then Content.cons ⟨.definite, c.mode⟩ else Content.prim c.mode))
+            (if id.constructed = true then Content.cons ⟨.definite, c.mode, 0⟩ else Content.prim c.mode))
             (St g2.data (some len)) = .error .fuel := by
         intro _ h
         by_cases hcer : (id.constructed && c.mode == .cer) = true
         · rw [if_pos hcer] at h; cases h
         · rw [if_neg hcer] at h
           cases hr : runG0 (op (C12.tagOf id.cls id.num)
-              (if id.constructed = true then Content.cons ⟨.definite, c.mode⟩ else Content.prim c.mode))
+              (if id.constructed = true then Content.cons ⟨.definite, c.mode, 0⟩ else Content.prim c.mode))
               (St g2.data (some len)) with
           | error e =>
             rw [hr] at h; simp only at h; cases h; rfl
@@ -258,7 +258,7 @@ theorem bodyF_fuel (c : Cons) (op : Tag → Content → Prog (α × Content)) (g
       · rw [if_pos h1] at h; cases h
       · rw [if_neg h1] at h
         refine .inr ⟨rfl, ?_⟩
-        cases hr : runG0 (op (C12.tagOf id.cls id.num) (.cons ⟨.indefinite, c.mode⟩)) g2 with
+        cases hr : runG0 (op (C12.tagOf id.cls id.num) (.cons ⟨.indefinite, c.mode, 0⟩)) g2 with
         | error e => rw [hr] at h; simp only at h; cases h; rfl
         | ok r =>
           obtain ⟨⟨res, content'⟩, g3⟩ := r
@@ -388,7 +388,7 @@ theorem nfa_step (f : Nat) (hA : NFA f) (hV : NFV f) (hS : VS f) : NFA (f + 1) :
               rw [hh] at hp
               simp only at hp
               obtain ⟨hf2, hv2, _⟩ := header_view _ _ _ _ _ hh
-              rcases bodyF_fuel _ _ _ _ _ hp with ⟨len, _, hle, hrun⟩ | ⟨_, hrun⟩
+              rcases bodyF_fuel _ _ _ _ _ _ hp with ⟨len, _, hle, hrun⟩ | ⟨_, hrun⟩
               · refine hV _ _ _ rfl ?_ ?_ hrun
                 · intro m _; exact ⟨_, _, rfl⟩
                 · have hvl := view_len g2
@@ -481,7 +481,7 @@ theorem fuel_adequate (m : Mode) (d : Bytes) (f : Nat) (hf : d.length + 2 ≤ f)
     runG0 (decodeAll m f) (St d none) ≠ .error .fuel := by
   unfold decodeAll decodeTop
   simp only [runG0_bind]
-  cases hr : runG0 (readAll f ⟨.unbounded, m⟩) (St d none) with
+  cases hr : runG0 (readAll f ⟨.unbounded, m, 0⟩) (St d none) with
   | error e =>
     simp only
     intro h; cases h
